@@ -26,7 +26,7 @@ func init() {
 		ID:    "C07",
 		Title: "Retention removes only fully expired segments and hides them at once",
 		Decides: "TimeRange.Before(t) holds exactly when the whole range lies before t; retention (remove) deletes and unlists a segment only on the branch where its range is Before the deadline parameter, and queries (SelectSegments) drop — and release — exactly the segments whose range is Before the retention deadline, using the same predicate; " +
-			"both deadlines derive from the live TTL option at the time of use, and a live options update always stores the new TTL; forced cleanup keeps at least one segment, deletes exactly one, under the controller lock; retention and forced cleanup take the retention gate without blocking and release it.",
+			"both deadlines derive from the live TTL option at the time of use, and a live options update always stores the new TTL; forced cleanup keeps at least one segment, deletes exactly one, under the controller lock; retention and forced cleanup take the retention gate without blocking and release it.; every read of the TTL through the controller's shared options holds optsMutex (a copy taken under the lock) — the rule is rewritten in place by live group updates",
 		NotDecided: "clock behaviour, tick sequences, timing of the cron run, what estimatedDuration computes.",
 		Technique:  "finite-domain evaluation of the interval predicate; guarded-call (control dependence) on resolved predicate calls; SSA def-use for the TTL source; channel-semaphore pairing",
 		Run:        runC07,
@@ -359,7 +359,7 @@ func runC07(c *core.Ctx) {
 				r.Violate(rule, construct, r.fpos(f), "expected exactly one remove call")
 			} else {
 				arg := rm[0].(*ssa.Call).Call.Args[1]
-				live := flowsFromCallNamed(arg, sc+".getOptions", 0) || flowsFromCallNamed(arg, sc+".getRetentionDeadline", 0)
+				live := flowsFromCallWhere(arg, func(c *ssa.Call) bool { return readsLiveOpts(c.Call.StaticCallee(), 2) }, 0)
 				now := flowsFromAnyParam(arg, 0)
 				if !live {
 					r.Violate(rule, construct, r.pos(rm[0]), "the deadline handed to remove() is computed from a duration captured when the task was created, not from segmentController.opts.TTL at run time: after a live TTL increase retention keeps deleting segments that are not expired under the new TTL (queries already use the new TTL)")
@@ -369,7 +369,10 @@ func runC07(c *core.Ctx) {
 			}
 		}
 		if f := r.fn(rule, stPkg, "(*segmentController).getRetentionDeadline"); f != nil {
-			r.mustSeq(rule, f, exitAny, nil, call(sc+".getOptions"))
+			r.mustSeq(rule, f, exitAny, nil, NM{"a read of the live options (segmentController.opts)", func(in ssa.Instruction) bool {
+				c, ok := in.(*ssa.Call)
+				return ok && readsLiveOpts(c.Call.StaticCallee(), 2)
+			}})
 		}
 		if f := r.fn(rule, stPkg, "(*segmentController).updateOptions"); f != nil {
 			for _, fld := range []string{"TTL", "SegmentInterval", "ShardNum"} {
@@ -377,6 +380,48 @@ func runC07(c *core.Ctx) {
 			}
 		}
 		r.Floor(rule, 5)
+	}
+
+	// the TTL is rewritten in place by live group updates: every read of it through the controller's
+	// options happens with optsMutex held (a copy taken under the lock), never through the bare pointer
+	{
+		rule := "c07.ttl-read-under-lock"
+		n := 0
+		for _, f := range r.P.ModuleFuncs(stPkg) {
+			for _, b := range f.Blocks {
+				for _, in := range b.Instrs {
+					fa, ok := in.(*ssa.FieldAddr)
+					if !ok || !strings.HasSuffix(ssax.FieldQName(fa), ".TSDBOpts.TTL") {
+						continue
+					}
+					// only options reached through the shared controller (not a constructor's parameter copy)
+					shared := flowsFromFieldNamed(fa.X, "opts", 0) && strings.Contains(ssax.Canon(fa.X), ".opts") || flowsFromCallWhere(fa.X, func(c *ssa.Call) bool { return readsLiveOpts(c.Call.StaticCallee(), 1) }, 0)
+					if !shared {
+						continue
+					}
+					n++
+					construct := fmt.Sprintf("%s: TTL access #%d through the controller's options", ssax.FuncName(f), n)
+					if ssax.FuncName(f) == "(*"+stPkg+".database[T, O]).startRotationTask" {
+						// reviewed: runs inside OpenTSDB before the database is handed out (no updateOptions can run yet),
+						// and the value only seeds retentionTask.duration, which run() no longer uses for the deadline
+						r.Hold(rule, construct, r.pos(in), "exempt: start-up read before the database is published")
+						continue
+					}
+					held := false
+					for k, m := range locksOf(f).At(in) {
+						if strings.HasSuffix(k, ".optsMutex") && m >= 1 {
+							held = true
+						}
+					}
+					if held {
+						r.Hold(rule, construct, r.pos(in), "optsMutex held")
+					} else {
+						r.Violate(rule, construct, r.pos(in), "opts.TTL is read without optsMutex (getOptions() guards only the pointer): updateOptions assigns the two-word rule in place, so the reader can combine the new unit with the old number and compute a retention deadline off by the ratio of the units — segments younger than the TTL are deleted or hidden")
+					}
+				}
+			}
+		}
+		r.Floor(rule, 2)
 	}
 
 	// 3. keep-one, single step, under lock; retention gate
@@ -446,4 +491,35 @@ func runC07(c *core.Ctx) {
 		r.neverBefore(rule, f, rel, op, nil)
 	}
 	r.Floor("c07.retention-gate", 9)
+}
+
+// flowsFromCallWhere: v is computed (through operands, phis, local cells) from the result of a call accepted by ok.
+func flowsFromCallWhere(v ssa.Value, ok func(*ssa.Call) bool, depth int) bool {
+	if depth > 14 || v == nil {
+		return false
+	}
+	if c, isCall := v.(*ssa.Call); isCall && ok(c) {
+		return true
+	}
+	return anyOperand(v, func(o ssa.Value) bool { return flowsFromCallWhere(o, ok, depth+1) })
+}
+
+// readsLiveOpts: fn loads segmentController.opts itself or (statically, within depth) calls a module function that does.
+func readsLiveOpts(fn *ssa.Function, depth int) bool {
+	if fn == nil || fn.Blocks == nil {
+		return false
+	}
+	for _, b := range fn.Blocks {
+		for _, in := range b.Instrs {
+			if fa, ok := in.(*ssa.FieldAddr); ok && strings.HasSuffix(ssax.FieldQName(fa), ".segmentController.opts") {
+				return true
+			}
+			if depth > 0 {
+				if c, ok := in.(*ssa.Call); ok && readsLiveOpts(c.Call.StaticCallee(), depth-1) {
+					return true
+				}
+			}
+		}
+	}
+	return false
 }
